@@ -33,7 +33,7 @@ CLASS_LAW = {
 }
 FLOORS = {"float-arithmetic": 2, "density-form": 3, "gradient-is-derivative": 3, "sampler-density-agreement": 3,
           "bounds-are-support": 3, "support-guard": 2, "routing": 7, "posterior-sum": 4,
-          "guess-order": 1, "combine-coverage": 2, "received-arrays": 4, "components-not-updated": 6}
+          "guess-order": 1, "combine-coverage": 2, "received-arrays": 4, "components-not-updated": 6, "negations": 2}
 
 T = "theta[self.variables]"
 
@@ -229,6 +229,18 @@ def run(prog, tier):
     c, fn = prog.method("Posterior", "generate_initial_guesses")
     obs.append(_guess_order(c, fn))
     obs.extend(_received_arrays_not_mutated(prog))
+    # cost / cost_gradient of every prior are the negated value / gradient (inherited from BasePrior unless overridden)
+    for ci_ in [prog.cls("BasePrior")] + prog.subclasses("BasePrior"):
+        for mname, pats in (("cost", ("-self(_t)", "-self.__call__(_t)")), ("cost_gradient", ("-self.gradient(_t)",))):
+            fn_ = ci_.methods.get(mname)
+            if fn_ is None:
+                continue
+            rz_ = Resolver(fn_, prog, ci_.module, ci_)
+            rets_ = rz_.return_terms()
+            okn = len(rets_) == 1 and any(pmatch(rets_[0], pt, {"_t": fn_.args.args[1].arg}) is not None for pt in pats)
+            obs.append(struct_ob("negations", qual(ci_, fn_), okn,
+                                 f"{mname} must be the negated {'log-probability' if mname == 'cost' else 'gradient'} at the same point: returns "
+                                 f"`{U(rets_[0])[:120] if rets_ else None}`", ci_.module.relpath, fn_.lineno))
     # building a combined / joint / posterior object never updates the component objects it is given
     sites = []
     for ci in [prog.cls("BasePrior")] + prog.subclasses("BasePrior") + [prog.cls("Posterior")]:
@@ -243,6 +255,8 @@ def run(prog, tier):
                                         "is used again (alone, or in another joint prior built in a different order)"))
 
     obs.extend(dtype_hazard_obligations(prog, "float-arithmetic", ['inference/priors.py', 'inference/posterior.py']))
+    from .common import call_order_obligations
+    obs.extend(call_order_obligations(prog, "arguments-in-order", ['inference/priors.py', 'inference/posterior.py']))
 
     obs.extend(memo_obligations(prog, "cache-key", [prog.cls("BasePrior")] + prog.subclasses("BasePrior") + [prog.cls("Posterior")]))
 
